@@ -258,7 +258,8 @@ def run(ctx: Context) -> None:
             fuse = next((n for n in ast.walk(st.value) if isinstance(n, ast.Name) and n.id == mm.name('filled')), None)
             if len(full) != 1 or fuse is None or fl.resolve(fuse) is not full[0] or not full[0].args:
                 return None, mm.name('table')
-            ok_fill = len(full[0].args) >= 2 and norm_text(full[0].args[1]) == 'self.sensible_fill_value'
+            fillv = full[0].args[1] if len(full[0].args) >= 2 else kwarg(full[0], 'fill_value')
+            ok_fill = fillv is not None and norm_text(fillv) == 'self.sensible_fill_value'
             return (norm_text(fl.resolve(full[0].args[0])) if ok_fill else None), mm.name('table')
 
         it = ctx.func(f"{TOPO}._face_and_node_pair_iter")
